@@ -137,9 +137,9 @@ Ok(la, c, dep)     == OkU(la, c, dep, {})
 Err(why)       == [st |-> "err", why |-> why]
 Conc(x)        == x.la = 0 /\ ~x.dep /\ x.u = {}
 PadCoef(P, i)  == IF \E x \in P : x[1] = i THEN (CHOOSE x \in P : x[1] = i)[2] ELSE 0
-PadComb(P, Q, a, b) == LET idx == { x[1] : x \in P \cup Q }
+PadComb(P, Q, a, b) == LET idx == { x[1] : x \in P \cup Q } \ {0}
                            all == { << i, a * PadCoef(P, i) + b * PadCoef(Q, i) >> : i \in idx } IN
-                       { x \in all : x[2] # 0 }
+                       { x \in all : x[2] # 0 } \cup (IF \E x \in P \cup Q : x[1] = 0 THEN { <<0, 1>> } ELSE {})      \* the opaque mark never cancels
 PadOpaque(P, Q) == IF P = {} /\ Q = {} THEN {} ELSE { <<0, 1>> }
 Worse(a, b)    == IF a.st = "err" /\ a.why = "cycle" THEN a ELSE IF b.st = "err" /\ b.why = "cycle" THEN b
                   ELSE IF a.st = "err" THEN a ELSE b
@@ -251,7 +251,11 @@ RECURSIVE Lay(_, _, _)
 Lay(env0, i, acc) ==
     IF i > Len(env0.items) THEN acc
     ELSE LET off  == IF i = 1 THEN 0 ELSE acc.offs[i - 1] + acc.sizes[i - 1]
-             od   == IF i = 1 THEN {} ELSE acc.odep[i - 1] \cup (IF acc.sdep[i - 1] THEN {i - 1} ELSE {})     \* the unknown sizes in front of item i
+             \* the unknown sizes in front of item i: an alignment padding is a term of its own (it cancels in a difference of two labels
+             \* behind it); any other size that is unknown while the base is (a '. =' skip, a count that mentions an address) is opaque
+             od   == IF i = 1 THEN {}
+                     ELSE acc.odep[i - 1] \cup (IF ~acc.sdep[i - 1] THEN {}
+                                                ELSE IF env0.items[i - 1].s.k \in {"even", "odd", "align"} THEN {i - 1} ELSE {0})
              env  == [env0 EXCEPT !.offs = Append(acc.offs, off), !.odep = Append(acc.odep, od)]
              r    == SizeOf(env, i)
          IN Lay(env0, i + 1,
